@@ -31,7 +31,8 @@ struct CallPlan {
     uint64_t pre_us;                   // pause before issuing
     // responder side
     uint64_t delay_us, gap_us;         // before the header / between header and body
-    int fate;                          // 0 normal, 1 unknown tag, 2 duplicate response, 3 never answered, 4 wrong size (truncated body)
+    int fate;                          // 0 normal, 1 unknown tag, 2 duplicate response, 3 never answered, 4 wrong size (truncated body),
+                                       // 5 unknown tag whose payload happens to contain a well-formed frame addressed to another pending call
     // result
     volatile int done = 0; int ret = 0, en = 0; bool ok_data = false;
 };
@@ -145,14 +146,37 @@ void responder(int) {
                 else { PIPE->b2a.reset_errno = reset_errno; PIPE->b2a.reset_at = PIPE->b2a.total_read; PIPE->b2a.readable.notify_all(); sim::fault_fired("connection_reset"); }
                 pend.clear(); break;
             }
+            if (c.fate == 5) {
+                // the server answers under a tag nobody waits for (e.g. a call that gave up long ago), and the payload it returns is
+                // arbitrary data: here it looks like a complete response frame for a call that is still waiting, with wrong content
+                const Pending* v = nullptr;
+                for (auto& q : pend) if (calls[q.idx].fate == 0 && calls[q.idx].kind <= 1) { v = &q; break; }
+                if (v) {
+                    std::string inner;
+                    auto fillwrong = [&](auto* r) { r->id = v->idx; r->y = g(v->idx, 0x1000 + v->idx * 7919ULL) ^ 0xBADBADULL; for (size_t i = 0; i < sizeof(r->fill); i++) r->fill[i] = gfill(v->idx, i); inner.assign((const char*)r, sizeof(*r)); };
+                    if (calls[v->idx].kind == 0) { OpS::Response r; fillwrong(&r); } else { OpM::Response r; fillwrong(&r); }
+                    Header ih; ih.function = FunctionID(0x7e57, v->fn); ih.tag = v->tag; ih.size = inner.size();
+                    std::string body((const char*)&ih, sizeof ih); body += inner;
+                    Header h; h.function = FunctionID(0x7e57, p.fn); h.tag = p.tag + 100000; h.size = body.size();
+                    ep.timeout(-1ULL);
+                    ep.write(&h, sizeof h);
+                    if (c.gap_us) thread_usleep(c.gap_us);
+                    ep.write(body.data(), body.size());
+                    ep.timeout(200);
+                    sim::fault_fired("unknown_tag_with_frame_like_payload");
+                    sim::note("responder: answered request %d under an unknown tag; its payload looks like a response for call %d", p.idx, v->idx);
+                    answered++;
+                    continue;
+                }
+            }
             int copies = c.fate == 2 ? 2 : 1;
             for (int k = 0; k < copies; k++) {
                 std::string body;
                 auto fillresp = [&](auto* r) { r->id = p.idx; r->y = g(p.idx, 0x1000 + p.idx * 7919ULL); for (size_t i = 0; i < sizeof(r->fill); i++) r->fill[i] = gfill(p.idx, i); body.assign((const char*)r, sizeof(*r)); };
                 if (c.kind == 0) { OpS::Response r; fillresp(&r); } else if (c.kind == 1) { OpM::Response r; fillresp(&r); } else { auto r = new OpL::Response; fillresp(r); delete r; }
-                Header h; h.function = FunctionID(0x7e57, p.fn); h.tag = c.fate == 1 ? p.tag + 100000 : p.tag; h.size = body.size();
+                Header h; h.function = FunctionID(0x7e57, p.fn); h.tag = (c.fate == 1 || c.fate == 5) ? p.tag + 100000 : p.tag; h.size = body.size();
                 if (c.fate == 4) { h.size = body.size() / 2; body.resize(h.size); sim::fault_fired("short_response_body"); }
-                if (c.fate == 1) sim::fault_fired("unknown_tag"); if (c.fate == 2 && k == 1) sim::fault_fired("duplicate_response");
+                if (c.fate == 1 || c.fate == 5) sim::fault_fired("unknown_tag"); if (c.fate == 2 && k == 1) sim::fault_fired("duplicate_response");
                 ep.timeout(-1ULL);
                 ep.write(&h, sizeof h);
                 if (c.gap_us) { thread_usleep(c.gap_us); sim::probe("header_body_gap"); }
@@ -188,8 +212,8 @@ void harness_run(uint64_t seed) {
             if (t >= 2 && t <= 4 && c.gap_us < 300) c.gap_us = 300 + D[3 + sim::rnd(5)];
             c.pre_us = sim::rnd(3) == 0 ? D[sim::rnd(6)] : 0;
             int f = sim::rnd(12);
-            c.fate = hostile == 0 ? 0 : f == 0 ? 1 : f == 1 ? 2 : f == 2 ? 3 : f == 3 ? 4 : 0;
-            if (c.fate == 3 && c.timeout_us == 0) c.timeout_us = 5000;     // a call that is never answered needs a deadline
+            c.fate = hostile == 0 ? 0 : f == 0 ? 1 : f == 1 ? 2 : f == 2 ? 3 : f == 3 ? 4 : f == 4 ? 5 : 0;
+            if ((c.fate == 3 || c.fate == 1 || c.fate == 5) && c.timeout_us == 0) c.timeout_us = 5000;     // a call that is never answered (under its own tag) needs a deadline
             calls.push_back(c);
         }
     }
